@@ -148,8 +148,9 @@ def _work(args):
                         rw = Dim(*flat(_scan_at(dabs, b, o)[1]))
                         td = td >> tensor.Id(lw) @ tb @ tensor.Id(rw)
                     rec["variants"].append(variant("tensor_eval", proj(td.eval())))
+                    biggest = max(abs(a) for e2 in rec["variants"][-1]["val"]["a"] for a in e2)
                     # bubbles: the entrywise image of the inside under the bubble's function
-                    if max(abs(a) for e2 in rec["variants"][-1]["val"]["a"] for a in e2) < 20000:   # TLC integers are 32-bit
+                    if biggest < 20000:   # TLC integers are 32-bit
                         rec["variants"].append(variant("bubble_sq", proj(td.bubble(func=lambda v: v * v).eval())))
                     rec["variants"].append(variant("bubble_1m", proj(td.bubble(func=lambda v: 1 - v).eval())))
                     # formal sums: with a parallel diagram from the model (the previous one of the same type)
